@@ -441,6 +441,24 @@ pub fn run(cfg: &Cfg) -> Report {
     shapes.extend(lits(t).iter().map(|s| s.to_string()));
     run_echo("variable", &vec![], SIMPLE[t].1, Sexp::tagged("simple", vec![Sexp::atom(SIMPLE[t].0)]), &shapes, &mut cases, &mut rep);
   }
+  // white space around the name of a built-in type is not a part of the name; the type `Any` accepts every value
+  // (`Variable::try_from` trims, the arm "Any" of build_variable_evaluator; the driver resolves the text of the
+  // attribute with `VarType.ofRef`)
+  for (t, pad) in [(1usize, " number "), (0, "string "), (2, "  boolean"), (3, " date ")] {
+    let mut shapes: Vec<String> = vec!["absent".into()];
+    shapes.extend(value_kinds().iter().map(|s| s.to_string()));
+    shapes.extend(lits(t).iter().map(|s| s.to_string()));
+    run_echo("variable", &vec![], pad, Sexp::tagged("ref", vec![Sexp::str(pad)]), &shapes, &mut cases, &mut rep);
+  }
+  for any in ["Any", " Any "] {
+    let mut shapes: Vec<String> = vec!["absent".into()];
+    for v in value_kinds() {
+      shapes.push(v.to_string());
+      shapes.push(format!("[{}]", v));
+      shapes.push(format!("{{a: {}}}", v));
+    }
+    run_echo("variable", &vec![], any, Sexp::tagged("ref", vec![Sexp::str(any)]), &shapes, &mut cases, &mut rep);
+  }
   // a variable whose type reference names nothing
   {
     let shapes: Vec<String> = value_kinds().iter().map(|s| s.to_string()).collect();
@@ -697,5 +715,63 @@ pub fn run(cfg: &Cfg) -> Report {
     }
   }
   rep.model_requests = model.requests;
+  crate::c04::run_expectations(&mut rep, &expectations());
   rep
+}
+
+/// Written-out expectations (see `c04::Expectation`): what the property text prescribes for small models, written
+/// down by hand — the behaviours reviewers reported against the letter of the property.
+fn expectations() -> Vec<crate::c04::Expectation> {
+  use crate::c04::Expectation;
+  let defs = concat!(
+    "<itemDefinition name=\"tPerson\"><itemComponent name=\"name\"><typeRef>string</typeRef></itemComponent><itemComponent name=\"age\"><typeRef>number</typeRef></itemComponent></itemDefinition>",
+    "<itemDefinition name=\"tPersons\" isCollection=\"true\"><typeRef>tPerson</typeRef></itemDefinition>",
+    "<itemDefinition name=\"tNums\" isCollection=\"true\"><typeRef>number</typeRef></itemDefinition>",
+    "<itemDefinition name=\"tSmall\"><typeRef>number</typeRef><allowedValues><text>[1..10]</text></allowedValues></itemDefinition>",
+    "<itemDefinition name=\"tPick\" isCollection=\"true\"><typeRef>number</typeRef><allowedValues><text>1,2,3</text></allowedValues></itemDefinition>"
+  );
+  // `In` echoes the input `x` of the type, `Out` has an output variable of the type and the value as logic
+  let echo = |type_ref: &str| -> String {
+    format!(
+      "{}<inputData name=\"x\" id=\"_x\"><variable name=\"x\" typeRef=\"{}\"/></inputData><decision name=\"In\" id=\"_in\"><variable name=\"In\"/><informationRequirement><requiredInput href=\"#_x\"/></informationRequirement><literalExpression><text>x</text></literalExpression></decision>",
+      defs, type_ref
+    )
+  };
+  let out = |type_ref: &str, value: &str| -> String {
+    format!("{}<decision name=\"Out\" id=\"_out\"><variable name=\"Out\" typeRef=\"{}\"/><literalExpression><text>{}</text></literalExpression></decision>", defs, type_ref, value)
+  };
+  let mut v = vec![];
+  let mut add = |family: &'static str, signature: &'static str, body: String, invocable: &'static str, input: &'static str, expected: &'static str| {
+    v.push(Expectation { family, signature, body, invocable, input, expected });
+  };
+  // C11-a
+  let sig = "white space around the type reference of an input variable makes the input null";
+  add("expect-typeref-white-space", sig, echo(" number "), "In", "{x: 1}", "1");
+  add("expect-typeref-white-space", sig, echo(" number "), "In", "{x: \"a\"}", "null");
+  add("expect-typeref-white-space", sig, echo(" tSmall "), "In", "{x: 5}", "5");
+  add("expect-typeref-white-space", sig, echo(" tSmall "), "In", "{x: 50}", "null");
+  // C11-b
+  let sig = "input data of the type Any is bound to null";
+  add("expect-any-input", sig, echo("Any"), "In", "{x: 7}", "7");
+  add("expect-any-input", sig, echo("Any"), "In", "{x: {a: [1, \"b\"]}}", "{a: [1, \"b\"]}");
+  // C11-c: a list each of whose items is returned unchanged as a result of the item type
+  let sig = "a list result is replaced by null although each of its items is returned unchanged as a result of the item type (items of different shapes)";
+  add("expect-list-result", sig, out("tPerson", "{name: \"b\", age: 2, x: 1}"), "Out", "{}", "{name: \"b\", age: 2, x: 1}");
+  add("expect-list-result", sig, out("tPersons", "[{name: \"a\", age: 1}, {name: \"b\", age: 2}]"), "Out", "{}", "[{name: \"a\", age: 1}, {name: \"b\", age: 2}]");
+  add("expect-list-result", sig, out("tPersons", "[{name: \"a\", age: 1}, {name: \"b\", age: 2, x: 1}]"), "Out", "{}", "[{name: \"a\", age: 1}, {name: \"b\", age: 2, x: 1}]");
+  // C11-d
+  let sig = "the allowed values of the item definition of an output variable are not applied to the result";
+  add("expect-result-allowed-values", sig, echo("tSmall"), "In", "{x: 100}", "null");
+  add("expect-result-allowed-values", sig, out("tSmall", "5"), "Out", "{}", "5");
+  add("expect-result-allowed-values", sig, out("tSmall", "100"), "Out", "{}", "null");
+  // C11-e
+  let sig = "the allowed values of a collection item definition are tested against the whole list instead of its items";
+  add("expect-collection-allowed-values", sig, echo("tPick"), "In", "{x: [1, 5]}", "null");
+  add("expect-collection-allowed-values", sig, echo("tPick"), "In", "{x: [1, 2]}", "[1, 2]");
+  add("expect-collection-allowed-values", sig, echo("tPick"), "In", "{x: [1]}", "[1]");
+  // C11-f: the same value, the same type: a result is returned unchanged, an input loses an entry
+  let sig = "a component value with an additional entry is returned unchanged as a result but loses the entry as an input";
+  add("expect-additional-entry", sig, out("tPerson", "{name: \"b\", age: 2, x: 1}"), "Out", "{}", "{name: \"b\", age: 2, x: 1}");
+  add("expect-additional-entry", sig, echo("tPerson"), "In", "{x: {name: \"b\", age: 2, x: 1}}", "{name: \"b\", age: 2, x: 1}");
+  v
 }
